@@ -37,6 +37,53 @@ ASSUMPTIONS = [
 SEEDS = ["1", "4242"]
 _helpers = {}
 
+NS = "tag:c16.example,2000:"
+APP_TAGS = [NS + "app/point", NS + "app/", NS + "app", NS + "other", NS + "app/deep/er", "!c16local", "!c16/x"]
+TAG_DIRECTIVES = [
+    {"!e!": NS, "!app!": NS + "app/"},                      # nested prefixes: the handle chosen must not depend on set/dict order
+    {"!app!": NS + "app/", "!e!": NS},
+    {"!a!": NS + "app/", "!b!": NS, "!c!": NS + "a", "!d!": NS + "app/deep/"},
+    {"!e!": NS},
+    {"!": "!c16", "!!": NS},
+    {"!x!": "!c16", "!y!": "!c16/", "!z!": "!"},
+]
+
+
+class Tagged:
+    """An application value written as a scalar with an application tag (dumped by the private dumper subclasses below)."""
+    def __init__(self, tag, text):
+        self.tag, self.text = tag, text
+
+    def __eq__(self, other):
+        return type(other) is Tagged and (self.tag, self.text) == (other.tag, other.text)
+
+    def __hash__(self):
+        return hash((self.tag, self.text))
+
+    def __repr__(self):
+        return "Tagged(%r, %r)" % (self.tag, self.text)
+
+
+_classes = {}
+
+
+def get_dumper(yaml, dname):
+    """Private subclass of the named shipped dumper that also knows how to write Tagged values."""
+    D = _classes.get(dname)
+    if D is None:
+        D = _classes[dname] = type("C16" + dname, (getattr(yaml, dname),), {})
+        D.add_representer(Tagged, lambda d, x: d.represent_scalar(x.tag, x.text))
+    return D
+
+
+def get_loader(yaml, L):
+    LL = _classes.get(L)
+    if LL is None:
+        LL = _classes[L] = type("C16" + L.__name__, (L,), {})
+        for prefix in (NS, "!c16"):
+            LL.add_multi_constructor(prefix, lambda l, suffix, node, prefix=prefix: Tagged(prefix + suffix, l.construct_scalar(node)))
+    return LL
+
 
 def helper(seed):
     h = _helpers.get(seed)
@@ -150,8 +197,16 @@ def eval_case(case):
     failures = []
     evals = 0
     perm_docs = permute(docs, perm_seed)
+    ntagged = sum(1 for o in objs if type(o) is Tagged)
+    if ntagged:
+        cl.add("application-tagged-values")
+    if opts.get("tags"):
+        cl.add("opt:tags")
+        pre = list(opts["tags"].values())
+        if any(type(o) is Tagged and sum(1 for p_ in pre if o.tag.startswith(p_) and len(p_) < len(o.tag)) >= 2 for o in objs):
+            cl.add("opt:tags:two-prefixes-match-one-tag")
     for dname in dumpers():
-        D = getattr(yaml, dname)
+        D = get_dumper(yaml, dname)
         try:
             text = yaml.dump_all(docs, Dumper=D, **opts)
         except RecursionError:
@@ -198,7 +253,7 @@ def eval_case(case):
         for lname, L in loaders():
             evals += 1
             try:
-                back = list(yaml.load_all(text, Loader=L))
+                back = list(yaml.load_all(text, Loader=get_loader(yaml, L)))
             except RecursionError:
                 raise
             except Exception as e:
@@ -240,11 +295,13 @@ def key_classes():
 
 
 def blueprints(max_leaves=14):
-    leaf = gv.scalars(st.one_of(gv.text(6), st.sampled_from(gv.WORDS))).map(lambda v: ("s", v))
+    plain_leaf = gv.scalars(st.one_of(gv.text(6), st.sampled_from(gv.WORDS))).map(lambda v: ("s", v))
+    tagged = st.tuples(st.sampled_from(APP_TAGS), st.sampled_from(["", "v", "1 2", "x: y"])).map(lambda t: ("s", Tagged(*t)))
+    leaf = st.one_of(plain_leaf, plain_leaf, plain_leaf, plain_leaf, tagged)
     ref = st.integers(0, 30).map(lambda n: ("ref", n))
 
     def extend(ch):
-        kids = st.one_of(ch, ch, ref)
+        kids = st.one_of(ch, ch, ref, tagged)
         dicts = [st.lists(st.tuples(kc.map(lambda v: ("s", v)), kids), max_size=6).map(lambda l: ("d", l)) for kc in key_classes()]
         sets = [st.lists(kc.map(lambda v: ("s", v)), max_size=6).map(lambda l: ("set", l)) for kc in key_classes()]
         return st.one_of(st.lists(kids, max_size=4).map(lambda l: ("l", l)), *dicts, *sets)
@@ -264,6 +321,7 @@ def options():
         "explicit_start": st.sampled_from([None, True]),
         "explicit_end": st.sampled_from([None, True]),
         "version": st.sampled_from([None, (1, 1)]),
+        "tags": st.sampled_from([None, None] + TAG_DIRECTIVES),
         "sort_keys": st.booleans(),
     }))
 
@@ -304,5 +362,6 @@ def arms(tier):
             Arm("shared-scalars", eval_case, shared_scalar_cases, quick=1500, thorough=40000)]
 
 
-REQUIRED_CLASSES = ["sort_keys:on", "sort_keys:off", "container>=3-keys", "set>=2-members", "anchors>=2", "docs>1-with-anchors",
+MIN_CLASS_COUNTS = {"opt:tags:two-prefixes-match-one-tag": 60, "application-tagged-values": 1500}
+REQUIRED_CLASSES = ["opt:tags:two-prefixes-match-one-tag", "application-tagged-values", "sort_keys:on", "sort_keys:off", "container>=3-keys", "set>=2-members", "anchors>=2", "docs>1-with-anchors",
                     "keys:str", "keys:number", "keys:bytes", "keys:date", "keys:datetime", "keys:aware-datetime"]
